@@ -23,8 +23,12 @@ CaseResult body(Chooser& ch, Stats* st) {
   TableSpec s = gen_spec(ch, so);
   // aux keys of all accepted lengths, including maximal key + value
   int naux = ch.coin(1, 3) ? 0 : (int)ch.draw(1, 50);
+  // many keys with long (HIERARCH) names: together they outweigh the rounding slack of the estimate, so an estimate
+  // that leaves out one KIND of key becomes visible
+  bool many_long = gen_version() >= 2 && ch.coin(1, 4);
+  if (many_long) naux = 40 + (int)ch.draw(0, 80);
   for (int i = 0; i < naux; i++) {
-    int kind = (int)ch.draw(0, 3);
+    int kind = many_long ? 2 + (int)ch.draw(0, 1) : (int)ch.draw(0, 3);
     std::string key, val;
     if (kind == 0) { key = "K" + std::to_string(i); val = std::to_string(i); }
     else if (kind == 1) { key = "KEY" + std::to_string(i); val = std::string(68, (char)('a' + i % 26)); }                       // maximal short-key value
@@ -53,7 +57,7 @@ CaseResult body(Chooser& ch, Stats* st) {
   js << "{\"spec\":" << s.json(4) << ",\"naux\":" << naux << ",\"convolution_knots\":" << nk << ",\"convolution_dimension\":" << dim << "}";
   r.json = js.str();
   if (st) {
-    st->label("ndim:" + std::to_string(s.ndim())); st->label(conv ? "convolution:yes" : "convolution:no"); if (naux >= 10) st->label("aux>=10"); st->label("coeffs:" + std::string(s.ncoeff() < 1000 ? "<1e3" : s.ncoeff() < 10000 ? "<1e4" : ">=1e4"));
+    st->label("ndim:" + std::to_string(s.ndim())); st->label(conv ? "convolution:yes" : "convolution:no"); if (naux >= 10) st->label("aux>=10"); if (many_long) st->label("aux:many_long_keys"); st->label("coeffs:" + std::string(s.ncoeff() < 1000 ? "<1e3" : s.ncoeff() < 10000 ? "<1e4" : ">=1e4"));
     if (conv || naux >= 10 || s.ndim() >= 3) { Hasher h; h.add(s.hash()); h.add(naux); h.add(nk); h.add(dim); st->nontriv(h.h); }
     st->sample(r.json);
   }
